@@ -524,7 +524,7 @@ def run(ck):
     ck.gen()
     built = ck.coq_make(MODEL + PROOFS, clean=ck.thorough)
     ck.obligations = ck.count_statements(STATEMENT_FILES)
-    proofs_ok = all(built.get(x) for x in PROOFS)
+    proofs_ok = all(built.get(x) for x in PROOFS) and not ck.broken
     if proofs_ok:
         if ck.audit("theories/Props/C18.v"):
             ck.discharged = list(ck.obligations)
@@ -547,14 +547,23 @@ def run(ck):
         ck.timings["harness_cases"] = len(cases)
 
     # implementation-only oracle (also the search for a failing input)
-    nviol = 0
+    found = {}     # violation key -> [count, smallest failing case, why]
     for c in cases:
         ck.count(c["stream"], key=case_key(c), trivial=case_trivial(c))
+        size = None
         for cls, why in impl_oracle(c):
-            nviol += 1
-            if nviol <= 400:
-                ck.violation("impl:%s:%s" % (c["stream"].split("-")[0], cls), cls.replace("-", " ") + " - " + why,
-                             {"case": c, "expected": "the property read off the observed results", "observed": slim(c)})
+            key = "impl:%s:%s" % (c["stream"].split("-")[0], cls)
+            if size is None:
+                size = len(json.dumps(c))
+            ent = found.setdefault(key, [0, None, None, None])
+            ent[0] += 1
+            if ent[1] is None or size < ent[3]:
+                ent[1], ent[2], ent[3] = c, cls.replace("-", " ") + " - " + why, size
+    for key, (cnt, c, why, _) in found.items():
+        # the smallest failing case of each kind is the replay
+        for _ in range(min(cnt, 50)):
+            ck.violation(key, why, {"case": c, "expected": "the property read off the observed results",
+                                    "observed": slim(c), "failing_cases_of_this_kind": cnt})
     for c in cases[:1] + cases[300:301] + cases[700:701] + cases[-2:]:
         ck.sample(slim(c))
 
